@@ -521,15 +521,21 @@ Definition act_set_starting_height (d : swap_data) : M (string * swap_data) :=
       else ret (Ev_NoOp, d)
   end.
 
+(* premiumInRange (added by the repo's `fix:` commit for finding C12/D13): amount+premium is a
+   non-negative satoshi amount whose msat value fits into a uint64; the sum is computed in int64 *)
+Definition max_sat : Z := 18446744073709551615 / 1000.
+Definition premium_in_range (amount premium : Z) : bool :=
+  negb (max_sat <? amount) && negb (i64 (amount + premium) <? 0) && negb (max_sat <? i64 (amount + premium)).
+
 Definition check_premium (d : swap_data) : option bool :=   (* Some true = ok; None = nil deref *)
   match d_in_agr d with
   | Some a => match d_in_req d with
-              | Some r => Some (negb (rq_limit r <? ia_premium a))
+              | Some r => Some (negb (rq_limit r <? ia_premium a) && premium_in_range (rq_amount r) (ia_premium a))
               | None => None end
   | None =>
     match d_out_agr d with
     | Some a => match d_out_req d with
-                | Some r => Some (negb (rq_limit r <? oa_premium a))
+                | Some r => Some (negb (rq_limit r <? oa_premium a) && premium_in_range (rq_amount r) (oa_premium a))
                 | None => None end
     | None => Some false
     end
